@@ -26,6 +26,20 @@ fn t(secs: u64) -> SystemTime {
     UNIX_EPOCH + Duration::from_secs(1_000_000 + secs)
 }
 
+/// A log event whose own timestamp lies `age` in the past (built by `log()` into a capturing logger of this process).
+fn stale_event(tags: Vec<servlin::log::internal::Tag>, age: Duration) -> LogEvent {
+    static CAPTURE: std::sync::OnceLock<std::sync::Mutex<std::sync::mpsc::Receiver<LogEvent>>> = std::sync::OnceLock::new();
+    let rx = CAPTURE.get_or_init(|| {
+        let (tx, rx) = std::sync::mpsc::sync_channel(4);
+        std::mem::forget(servlin::log::set_global_logger(tx).expect("logger"));
+        std::sync::Mutex::new(rx)
+    });
+    let rx = rx.lock().unwrap_or_else(std::sync::PoisonError::into_inner);
+    servlin::log::internal::clear_thread_local_log_tags();
+    let _ = servlin::log::internal::log(SystemTime::now() - age, Level::Info, tags);
+    rx.recv_timeout(Duration::from_secs(2)).expect("captured event")
+}
+
 /// Set level. `init` = `name:len:mtime,...` files present before `new`; ops: `push:name:len:mtime`, `del`, `age:now:dur`, `over:max`.
 pub fn case_set(ctx: &mut Ctx, init: &str, ops: &str) {
     let init_o = init.to_string();
@@ -142,7 +156,10 @@ pub fn case_writer(ctx: &mut Ctx, max_write: &str, max_keep: &str, keep_age: &st
             let mut alive = true;
             for (i, pad) in seg.iter().enumerate() {
                 n += 1;
-                let ev = LogEvent::new(Level::Info, vec![tag("n", n), tag("pad", "p".repeat(*pad))]);
+                // every fourth event carries an older timestamp of its own (as the events of `log_response(Err(e))` do:
+                // they are stamped with the time the error was created): the writer's decisions go by the clock, not by it
+                let ev = if n % 4 == 0 { stale_event(vec![tag("n", n), tag("pad", "p".repeat(*pad))], Duration::from_secs(7200)) }
+                    else { LogEvent::new(Level::Info, vec![tag("n", n), tag("pad", "p".repeat(*pad))]) };
                 sizes.push(line_len(&ev));
                 if sender.send(ev).is_err() { alive = false; break; }
                 if i % 16 == 15 { peak = peak.max(total(&dir)); }
